@@ -78,7 +78,7 @@ def run(chk):
         shifts = unsigned_shift_sites(f)
         chk.require(all("unsigned" in ty for _, ty in shifts) and shifts, "R1", "digit extraction shifts an unsigned value (logical shift)",
                     where=f.where, ok="%d shift site(s), all unsigned" % len(shifts), bad="operand types %s" % shifts, variant=vn, nontrivial=False)
-        rng_ok = (il["lo"], il["cmp"], il["hi"]) == (ZERO, "<", Nn) and (jl["lo"], jl["cmp"], jl["hi"]) == (ZERO, "<", T)
+        rng_ok = summ.visits(il, ZERO, Nn) and summ.visits(jl, ZERO, T)
         chk.require(rng_ok and rowbase == sym.idx(sym.idx(sym.sym(ks), i), j) and c["args"][0] == sym.sym(res), "R4",
                     "every (i, j) with i < n, j < t contributes row ks[i][j][digit] by subtraction from result",
                     where="%s:%s" % (f.file, c["line"]), ok="lweSubTo(result, &ks[i][j][digit]) over [0,n) x [0,t)",
